@@ -89,8 +89,10 @@ func (x *Exec) intrinsic(fn *ssa.Function, args []Val) (Val, bool) {
 		if b.EqVar != "" {
 			x.known[b.EqVar] = b.EqC
 		}
-		if r := x.sol.check(); r == "unsat" {
-			panic(pathEnd{"assume-infeasible"})
+		if x.pos >= len(x.prefix) {
+			if r := x.sol.check(); r == "unsat" {
+				panic(pathEnd{"assume-infeasible"})
+			}
 		}
 		return nil, true
 	case "verifAssert":
@@ -126,6 +128,24 @@ func (x *Exec) intrinsic(fn *ssa.Function, args []Val) (Val, bool) {
 		if a.L != nil && a.L == b.L {
 			return Bool{C: true}, true
 		}
+		if a.L != nil && a.L.done {
+			a = a.L.val
+		}
+		if b.L != nil && b.L.done {
+			b = b.L.val
+		}
+		if a.L == nil && b.L == nil && a.T != nil && b.T != nil {
+			switch av := a.V.(type) {
+			case Slice:
+				if bv, ok := b.V.(Slice); ok && av.Arr != nil && av == bv {
+					return Bool{C: true}, true
+				}
+			case *Map:
+				if bv, ok := b.V.(*Map); ok && av != nil && av == bv {
+					return Bool{C: true}, true
+				}
+			}
+		}
 		return Bool{C: false}, true
 	case "verifDeepEqual":
 		return x.deepEq(args[0].(Iface), args[1].(Iface)), true
@@ -142,6 +162,13 @@ func (x *Exec) intrinsic(fn *ssa.Function, args []Val) (Val, bool) {
 			return Bool{C: false}, true
 		}
 		return x.deepEq(a, args[1].(Iface)), true
+	case "verifGrammarAccepts":
+		sl := args[0].(Slice)
+		var ts []Int
+		for _, e := range x.sliceElems(sl) {
+			ts = append(ts, e.(Int))
+		}
+		return x.grammarAccepts(ts), true
 	case "verifNative":
 		return Bool{C: false}, true
 	case "verifCatch":
@@ -272,6 +299,14 @@ func (x *Exec) external(fn *ssa.Function, args []Val) (Val, bool) {
 		if v, ok := x.job.Stub(x, name, args); ok {
 			return v, true
 		}
+	}
+	if name == "(*github.com/jmespath/go-jmespath.Lexer).tokenize" {
+		if g, ok := x.P.lib.Members["verifStubActive"].(*ssa.Global); ok {
+			if b, ok := x.globals[g].V.(Bool); ok && b.T == "" && b.C {
+				return x.call(x.P.harnessFunc("verifTokenizeHook"), args[1:], nil), true
+			}
+		}
+		return nil, false
 	}
 	switch name {
 	case "strings.Replace":
@@ -763,6 +798,7 @@ func (x *Exec) reflectExt(name string, args []Val) Val {
 			if vv == nil {
 				return mkInt(0)
 			}
+			x.forceKeys(vv)
 			return mkInt(int64(len(vv.Keys)))
 		case Str:
 			return x.strLen(vv)
@@ -906,6 +942,8 @@ func (x *Exec) deepEqVal(t types.Type, av, bv Val) Bool {
 		if a == b {
 			return Bool{C: true}
 		}
+		x.forceKeys(a)
+		x.forceKeys(b)
 		if len(a.Keys) != len(b.Keys) {
 			return Bool{C: false}
 		}
